@@ -240,5 +240,5 @@ META = {
     "level": "Static all-paths decision that #elif and nested #if conditions are evaluated exactly when C evaluates them (candidate group, not in an ignored region), that skipped operands of && || ?: are not evaluated, "
              "that #if literals get C's types, that the line-keeping state machine cannot re-enable reading inside a skipped group or after a taken group (pushed flags and #elif/#else transitions), and that the conditional stack is pushed exactly once per opening directive on every path (error paths included) and popped only by #endif. These are the clauses of the statement "
              "about 'expressions that C never evaluates'; agreement of macro expansion with cpp is an oracle comparison and is not claimed.",
-    "note": "Macro expansion (object-like, function-like, variadic, #undef) is not decided here: it would need the C preprocessor as an oracle or a semantic model of rescanning, neither of which is static analysis of this code base.",
+    "note": "Macro expansion (object-like, function-like, variadic, #undef) is not decided here: it would need the C preprocessor as an oracle or a semantic model of rescanning, neither of which is static analysis of this code base. An outside dynamic probe (DESIGN 10.9, probes/P13) confirms macro expansion disagrees with cpp in several ways no rule here reports (arguments expanded while they are collected, __VA_ARGS__ loses its commas, painted-blue tokens re-expanded after substitution, `defined X`).",
 }
